@@ -620,6 +620,7 @@ var c12Flows = []string{"send", "send-with-caller", "deposit", "deposit-with-cal
 	"replace-deposit-same-recipient", "replace-deposit-unchanged", "replace-unchanged"}
 
 func runC12(rc *RunCtx) {
+	defer ProbeHistory(rc, rc.Pick(200, 800), false)
 	nonce := uint64(50000)
 	for round := 0; round < rc.Pick(2, 8); round++ {
 		if round%rc.NShards != rc.Shard {
